@@ -39,10 +39,10 @@ func specHex4(s string, o int) rune {
 //@ define hexUp(b) = (b >= 48 && b <= 57) || (b >= 65 && b <= 70)
 //@ define surrogate(v) = v >= 55296 && v <= 57343
 //@ func ToUnicode
-//@ loop 2 invariant [C16.uni.digits] good && 3 <= len(part) && rangeidx <= len(part) - 3 && (forall k :: 0 <= k && k < rangeidx ==> hexUp(part[k+3]))
-//@ loop 2 invariant [C16.uni.groups] len(candidates)*4 <= rangeidx && rangeidx <= len(candidates)*4 + 3 && (forall j :: 0 <= j && j < len(candidates) ==> candidates[j] == specHex4(part, 3 + 4*j) && !surrogate(candidates[j]))
-//@ loop 2 invariant [C16.uni.partial] (rangeidx == len(candidates)*4 ==> val == 0) && (rangeidx == len(candidates)*4 + 1 ==> val == specHexUp(part[rangeidx+2])) && (rangeidx == len(candidates)*4 + 2 ==> val == specHexUp(part[rangeidx+1])*16 + specHexUp(part[rangeidx+2])) && (rangeidx == len(candidates)*4 + 3 ==> val == (specHexUp(part[rangeidx])*16 + specHexUp(part[rangeidx+1]))*16 + specHexUp(part[rangeidx+2]))
-//@ loop 2 exit-when [C16.uni.accept] good ==> len(candidates)*4 + 3 >= len(part) - 3 && (forall k :: 0 <= k && k < len(part) - 3 ==> hexUp(part[k+3])) && (forall j :: 0 <= j && j < len(candidates) ==> candidates[j] == specHex4(part, 3 + 4*j))
+//@ loop 2 invariant [C16.uni.digits] mathint(good && 3 <= len(part) && rangeidx <= len(part) - 3 && (forall k :: 0 <= k && k < rangeidx ==> hexUp(part[k+3])))
+//@ loop 2 invariant [C16.uni.groups] mathint(len(candidates)*4 <= rangeidx && rangeidx <= len(candidates)*4 + 3 && (forall j :: 0 <= j && j < len(candidates) ==> candidates[j] == specHex4(part, 3 + 4*j) && !surrogate(candidates[j])))
+//@ loop 2 invariant [C16.uni.partial] mathint((rangeidx == len(candidates)*4 ==> val == 0) && (rangeidx == len(candidates)*4 + 1 ==> val == specHexUp(part[rangeidx+2])) && (rangeidx == len(candidates)*4 + 2 ==> val == specHexUp(part[rangeidx+1])*16 + specHexUp(part[rangeidx+2])) && (rangeidx == len(candidates)*4 + 3 ==> val == (specHexUp(part[rangeidx])*16 + specHexUp(part[rangeidx+1]))*16 + specHexUp(part[rangeidx+2])))
+//@ loop 2 exit-when [C16.uni.accept] mathint(good ==> len(candidates)*4 + 3 >= len(part) - 3 && (forall k :: 0 <= k && k < len(part) - 3 ==> hexUp(part[k+3])) && (forall j :: 0 <= j && j < len(candidates) ==> candidates[j] == specHex4(part, 3 + 4*j)))
 //@ loop 2 exit-when [C16.uni.reject] !good ==> !hexUp(part[prev(rangeidx)+3]) || (prev(rangeidx) == prev(len(candidates))*4 + 3 && surrogate(specHex4(part, prev(rangeidx))))
 // "u" components (step 3, second form): "u" followed by four to six upper-case
 // hexadecimal digits.  Loop 3 of ToUnicode runs over part[1:]; val is the
@@ -51,7 +51,7 @@ func specHex4(s string, o int) rune {
 //@ loop 3 invariant [C16.u.value] (rangeidx == 0 ==> val == 0) && (rangeidx == 1 ==> val == specHexUp(part[1])) && (rangeidx == 2 ==> val == specHexUp(part[1])*16 + specHexUp(part[2])) && (rangeidx == 3 ==> val == (specHexUp(part[1])*16 + specHexUp(part[2]))*16 + specHexUp(part[3])) && (rangeidx == 4 ==> val == specHex4(part, 1)) && (rangeidx == 5 ==> val == specHex4(part, 1)*16 + specHexUp(part[5])) && (rangeidx == 6 ==> val == (specHex4(part, 1)*16 + specHexUp(part[5]))*16 + specHexUp(part[6]))
 //@ loop 3 exit-when [C16.u.accept] good ==> (forall k :: 0 <= k && k < len(part) - 1 ==> hexUp(part[k+1])) && (len(part) == 5 ==> val == specHex4(part, 1)) && (len(part) == 6 ==> val == specHex4(part, 1)*16 + specHexUp(part[5])) && (len(part) == 7 ==> val == (specHex4(part, 1)*16 + specHexUp(part[5]))*16 + specHexUp(part[6]))
 //@ loop 3 exit-when [C16.u.reject] !good ==> !hexUp(part[prev(rangeidx)+1])
-//@ loop 2 invariant [C16.uni.phase] 0 <= rangeidx && rangeidx % 4 == rangeidx - len(candidates)*4
+//@ loop 2 invariant [C16.uni.phase] mathint(0 <= rangeidx && rangeidx % 4 == rangeidx - len(candidates)*4)
 
 // C18: lock discipline of the lazily built name tables.  Every access to a
 // field of glyphMap (other than the mutex itself) happens with the mutex held
